@@ -35,7 +35,7 @@ import warnings
 
 from vp import core
 
-RS, US, GS = "\x1e", "\x1f", "\x1d"
+RS, US, GS = "`", "^", "\\"
 T = "<http://www.w3.org/1999/02/22-rdf-syntax-ns#type>"
 SHEXC, SHACL = "ShEx", "Shacl"
 THRS = [("0", 0), ("0.5", 0.5), ("1", 1)]
@@ -94,7 +94,7 @@ def configs():
     _CFG["examples"] = dict(kwargs=dict(raw_graph=g, all_classes_mode=True, examples_mode="all"),
                             ns={"http://ex.org/": "ex"}, ex="all")
     _CFG["rdflib"] = dict(kwargs=dict(rdflib_graph=rdflib.Graph().parse(data=g, format="nt"), all_classes_mode=True),
-                          ns=None, ex=None)
+                          ns={"http://ex.org/": "ex"}, ex=None)
     _CFG["big"] = dict(kwargs=dict(raw_graph=big_graph(), all_classes_mode=True), ns={"http://ex.org/": "ex"}, ex=None)
     return _CFG
 
@@ -185,7 +185,8 @@ class Runner(object):
             if how == "own":
                 d = dict(self.cfg["ns"]) if self.cfg["ns"] is not None else None
                 sh = Shaper(namespaces_dict=d, shapes_namespace=sns, **kw)
-                self.dicts.append(sh._namespaces_dict)    # the caller's object, or the fresh {} made for None
+                # the caller's object; for namespaces_dict=None the {} the Shaper made (nobody else can hold it)
+                self.dicts.append(d if d is not None else sh._namespaces_dict)
                 self.dict_of[who] = len(self.dicts) - 1
             else:
                 j = self.dict_of[how[1]]
@@ -545,7 +546,7 @@ def run(tier, seed, replay=None):
                 group_conflicts.append((name, descr, list(g.items())[:2]))
         per_cfg.setdefault(name, []).append({"what": label, "histories": len(hs), "calls_deviating_from_pure": n_sf,
                                              "distinct_predictions": len(groups)})
-        pick = rnd.sample(range(len(hs)), min(len(hs), 12 if tier == "quick" else 40))
+        pick = rnd.sample(range(len(hs)), min(len(hs), 6 if tier == "quick" else 12))
         vm_cases.append(("c18_run", [table[i] for i in pick], [preds[i] for i in pick]))
         i = pick[0]
         samples.append({"config": name, "history": history_json(name, hs[i])["history"],
